@@ -195,7 +195,7 @@ theorem updateCore_reach (s s' : VSet) (u d : List Val) (allow : Bool)
     (h : updateCore s u d allow = (s', none)) :
     PBound (2 * sumPower s'.vals) s'.vals ∧ PBound prioCap s'.vals ∧
     0 ≤ prioSum s'.vals ∧ prioSum s'.vals < (s'.vals.length : Int) := by
-  obtain ⟨removed, tvp, v2, hrem, hver, hnp, hvals, hv2s, hv2ne, hv2pos, hv2mem⟩ :=
+  obtain ⟨removed, tvp, v2, hrem, hver, hnp, hvals, hv2s, hv2ne, hv2pos, hv2mem, _⟩ :=
     updateCore_decomp s s' u d allow hpre hu hd hup hdisj h
   have hp0 : ∀ v ∈ s.vals, 0 ≤ v.power := fun v hv => by have := hpre.pos v hv; omega
   obtain ⟨t1, t2⟩ := verifyUpdates_bounds s.vals u d removed tvp hp0 htot hle hu hd hup hrem hver
